@@ -625,7 +625,13 @@ fn handle_run_request(
 
                     // If nothing is pending (e.g. :skip at an idle
                     // prompt) there is nothing to skip.
-                    stack_frame.exprs_to_eval.pop();
+                    if let Some((_, expr)) = stack_frame.exprs_to_eval.pop() {
+                        // The enclosing expression still expects a
+                        // value from the expression we skipped.
+                        if expr.value_is_used {
+                            stack_frame.evalled_values.push(crate::values::Value::unit());
+                        }
+                    }
 
                     eval_to_response(env, session)
                 }
